@@ -801,7 +801,8 @@ LAWS = [
         doc="transpose/conj/dagger/squeeze/expand_dims/scalar ops/neg/sum/"
             "norm/abs/sqrt == numpy on the dense form; three call forms agree"),
     Law("array_binary", law_binary, quick=1200, thorough=16000,
-        doc="+ (union), - (or raises), elementwise * (commutative) == dense"),
+        doc="+ (union), - (or raises), elementwise * (commutative) == dense; "
+            "augmented forms += -= *= on a fresh copy == dense, or raise"),
     Law("allclose", law_allclose, quick=800, thorough=10000,
         doc="allclose(x, y) == numpy.allclose on the dense forms, both "
             "orders (differing element, missing / explicit zero blocks)"),
